@@ -1,5 +1,5 @@
 SPECIFICATION Spec
-CONSTANT MaxSize = 40
+CONSTANT MaxSize = 24
 CONSTANT Grains = {1, 2, 3, 5}
 CONSTANT MaxDepth = 5
 CONSTANT Cap = 8
